@@ -11,21 +11,21 @@ def run (line : String) : String :=
     match readProgram sx with
     | none => result "MODEL-SKIP" "any"
     | some p =>
-      match ofStmts 200 [] p.stmts with
+      match ofStmts 400 0 [] p.stmts with
       | none => result "MODEL-SKIP" "any"       -- outside the core fragment
-      | some (ss, globals) =>
+      | some (ss, nglobals, _) =>
         let code := compileP 0 0 ss
         let pool := constsP ss
         let codeS := natList (encode code)
         let poolS := joinWith "|" (pool.map encVal)
-        let g0 : List Val := List.replicate globals.length .null
+        let g0 : List Val := List.replicate nglobals .null
         let gsS (g : List Val) : String := joinWith "," (g.map encVal)
         -- the machine (model of the VM on this code)
         let model := match runMachine code pool 100000 ⟨0, [], g0⟩ with
           | some st => s!"code={codeS} consts=[{poolS}] ok g=[{gsS st.g}] last=* sp={st.stk.length}"
           | none => s!"code={codeS} consts=[{poolS}] rterr"
         -- the reference evaluation (specification)
-        let spec := match evalP g0 ss with
+        let spec := match evalP 20000 g0 ss with
           | some g => s!"m code=* consts=* ok g=[{gsS g}] last=* sp=0"
           | none => "m code=* consts=* rterr"
         result model spec
